@@ -710,3 +710,245 @@ def register(reg):      # noqa: F811
     reg.add(SequenceDecode())
     reg.add_loop("serialization.py::SequenceCodec.decode", 0,
                  LoopSpec(_seq_dec_inv, modifies=("$stream.pos",), carried={"sequence": "list"}))
+
+
+class SetDecode(CodecBase):
+    """set<T>: the uint64 count n, then n elements decoded one after the other; the result is the set of those values
+    (a repeated element is legal on the wire and simply collapses)"""
+    target = "serialization.py::SetCodec.decode"
+    props = PROPS + ("C09",)
+    lemmas_on_raise = True
+    params = {"raw_bytes": "stream", "serialization": "ref:Serialization", "subtypes": "val", "get_by_uuid": "val"}
+    modifies = {"$stream.pos": only("raw_bytes")}
+
+    def axioms(self, eng):
+        return super().axioms(eng) + dec_pos_axioms()
+
+    pre = SequenceDecode.pre
+    _p = SequenceDecode._p
+    may_raise = SequenceDecode.may_raise
+    lemmas = SequenceDecode.lemmas
+
+    def post(self, c0, c1, a, res):
+        s, n, C, p0, t, g = self._p(c0, a)
+        if res.k != "set":
+            return {"result_is_a_set": z3.BoolVal(False)}
+        i = fresh("i", Int)
+        x = fresh("x", Val)
+        return {"exactly_the_decoded_elements": z3.ForAll([x], z3.Select(res.t, x) == z3.Exists(
+                    [i], z3.And(0 <= i, i < n, x == elem_at(C, t, g, p0, i)))),
+                "consumes_count_and_elements": pos(c1, s) == dec_pos(C, t, g, p0, n)}
+
+
+def _set_dec_inv(L):
+    c0, a, cur = L.c0, L.a, L.c
+    s = a.raw_bytes.t
+    C, p0 = content(c0, s), pos(c0, s) + 8
+    t, g = fst(to_val(a.subtypes)), to_val(a.get_by_uuid)
+    st_ = L.env["decoded_set"]
+    i = fresh("i", Int)
+    x = fresh("x", Val)
+    r_ = fresh("r", Int)
+    return {"position": pos(cur, s) == dec_pos(C, t, g, p0, L.k),
+            "elements": z3.ForAll([x], z3.Select(st_.t, x) == z3.Exists([i], z3.And(0 <= i, i < L.k, x == elem_at(C, t, g, p0, i)))),
+            "no_failure_so_far": z3.ForAll([i], z3.Implies(z3.And(0 <= i, i < L.k), elem_exc(C, t, g, p0, i) == 0)),
+            "content_unchanged": content(cur, s) == C,
+            "other_streams_untouched": z3.ForAll([r_], z3.Implies(r_ != s, pos(cur, r_) == pos(c0, r_)))}
+
+
+_reg4 = register
+
+
+def register(reg):      # noqa: F811
+    _reg4(reg)
+    reg.add(SetDecode())
+    reg.add_loop("serialization.py::SetCodec.decode", 0,
+                 LoopSpec(_set_dec_inv, modifies=("$stream.pos",), carried={"decoded_set": "set"}))
+
+
+tpos = z3.Function("tuple_pos", BSeq, VSeq, Val, Int, Int, Int)    # stream position after the first k fields of a tuple
+
+
+def tpos_axioms():
+    C, ts, g, p0, k = z3.Const("tC", BSeq), z3.Const("tt", VSeq), z3.Const("tg", Val), z3.Const("tp", Int), z3.Const("tk", Int)
+    return [z3.ForAll([C, ts, g, p0], tpos(C, ts, g, p0, 0) == p0, patterns=[tpos(C, ts, g, p0, 0)]),
+            z3.ForAll([C, ts, g, p0, k], z3.Implies(k >= 0, tpos(C, ts, g, p0, k + 1) ==
+                                                    tpos(C, ts, g, p0, k) + dec_len(rest(C, tpos(C, ts, g, p0, k)), ts[k], g)),
+                      patterns=[tpos(C, ts, g, p0, k + 1)])]
+
+
+def field_at(C, ts, g, p0, i):
+    return dec_tree(rest(C, tpos(C, ts, g, p0, i)), ts[i], g)
+
+
+def field_exc(C, ts, g, p0, i):
+    return dec_exc(rest(C, tpos(C, ts, g, p0, i)), ts[i], g)
+
+
+class TupleDecode(CodecBase):
+    """tuple<T1,...,Tn>: the fields in order, field i decoded as Ti from where field i-1 ended, with the same resolver"""
+    target = "serialization.py::TupleCodec.decode"
+    props = PROPS + ("C09",)
+    params = {"raw_bytes": "stream", "serialization": "ref:Serialization", "subtypes": "seq", "get_by_uuid": "val"}
+    modifies = {"$stream.pos": only("raw_bytes")}
+
+    def axioms(self, eng):
+        return super().axioms(eng) + tpos_axioms()
+
+    def pre(self, c, a):
+        s = a.raw_bytes.t
+        return {"position_in_range": z3.And(0 <= pos(c, s), pos(c, s) <= z3.Length(content(c, s)))}
+
+    def _p(self, c0, a):
+        s = a.raw_bytes.t
+        return s, content(c0, s), pos(c0, s), a.subtypes.t, to_val(a.get_by_uuid)
+
+    def may_raise(self, c0, a):
+        s, C, p0, ts, g = self._p(c0, a)
+        i = fresh("i", Int)
+        bad = lambda code: z3.Exists([i], z3.And(0 <= i, i < z3.Length(ts), code(field_exc(C, ts, g, p0, i))))
+        return {"UnknownCodecError": bad(lambda e: e == 1), "Exception": bad(lambda e: z3.And(e != 0, e != 1))}
+
+    def post(self, c0, c1, a, res):
+        s, C, p0, ts, g = self._p(c0, a)
+        if res.k != "list" or res.cls != "tuple":
+            return {"result_is_a_tuple": z3.BoolVal(False)}
+        i = fresh("i", Int)
+        return {"one_field_per_subtype": res.x == z3.Length(ts),
+                "fields_in_order": z3.ForAll([i], z3.Implies(z3.And(0 <= i, i < z3.Length(ts)),
+                                                             z3.Select(res.t, i) == field_at(C, ts, g, p0, i))),
+                "consumes_the_fields": pos(c1, s) == tpos(C, ts, g, p0, z3.Length(ts))}
+
+
+def _tuple_dec_inv(L):
+    c0, a, cur = L.c0, L.a, L.c
+    s = a.raw_bytes.t
+    C, p0, ts, g = content(c0, s), pos(c0, s), a.subtypes.t, to_val(a.get_by_uuid)
+    lst = L.env["decoded_list"]
+    i = fresh("i", Int)
+    r_ = fresh("r", Int)
+    return {"position": pos(cur, s) == tpos(C, ts, g, p0, L.k),
+            "length": lst.x == L.k,
+            "fields": z3.ForAll([i], z3.Implies(z3.And(0 <= i, i < L.k), z3.Select(lst.t, i) == field_at(C, ts, g, p0, i))),
+            "no_failure_so_far": z3.ForAll([i], z3.Implies(z3.And(0 <= i, i < L.k), field_exc(C, ts, g, p0, i) == 0)),
+            "content_unchanged": content(cur, s) == C,
+            "other_streams_untouched": z3.ForAll([r_], z3.Implies(r_ != s, pos(cur, r_) == pos(c0, r_)))}
+
+
+_reg5 = register
+
+
+def register(reg):      # noqa: F811
+    _reg5(reg)
+    reg.add(TupleDecode())
+    reg.add_loop("serialization.py::TupleCodec.decode", 0,
+                 LoopSpec(_tuple_dec_inv, modifies=("$stream.pos",), carried={"decoded_list": "list"}))
+
+
+kvpos = z3.Function("mapping_pos", BSeq, Val, Val, Val, Int, Int, Int)   # position after the first k (key, value) pairs
+
+
+def key_len(C, kt, vt, g, p0, i):
+    return dec_len(rest(C, kvpos(C, kt, vt, g, p0, i)), kt, g)
+
+
+def kvpos_axioms():
+    C, kt, vt, g = z3.Const("mC", BSeq), z3.Const("mk", Val), z3.Const("mv", Val), z3.Const("mg", Val)
+    p0, k = z3.Const("mp", Int), z3.Const("mi", Int)
+    here = kvpos(C, kt, vt, g, p0, k)
+    kl = dec_len(rest(C, here), kt, g)
+    return [z3.ForAll([C, kt, vt, g, p0], kvpos(C, kt, vt, g, p0, 0) == p0, patterns=[kvpos(C, kt, vt, g, p0, 0)]),
+            z3.ForAll([C, kt, vt, g, p0, k], z3.Implies(k >= 0, kvpos(C, kt, vt, g, p0, k + 1) ==
+                                                        here + kl + dec_len(rest(C, here + kl), vt, g)),
+                      patterns=[kvpos(C, kt, vt, g, p0, k + 1)])]
+
+
+def key_at(C, kt, vt, g, p0, i):
+    return dec_tree(rest(C, kvpos(C, kt, vt, g, p0, i)), kt, g)
+
+
+def val_at(C, kt, vt, g, p0, i):
+    return dec_tree(rest(C, kvpos(C, kt, vt, g, p0, i) + key_len(C, kt, vt, g, p0, i)), vt, g)
+
+
+def kv_exc_free(C, kt, vt, g, p0, i):
+    return z3.And(dec_exc(rest(C, kvpos(C, kt, vt, g, p0, i)), kt, g) == 0,
+                  dec_exc(rest(C, kvpos(C, kt, vt, g, p0, i) + key_len(C, kt, vt, g, p0, i)), vt, g) == 0)
+
+
+def _mapping_view(dom, mp, C, kt, vt, g, p0, k):
+    """the dict built from the first k pairs: keys are the decoded keys, a key decoded several times keeps its last value"""
+    i, j = fresh("i", Int), fresh("j", Int)
+    x = fresh("x", Val)
+    return {"keys": z3.ForAll([x], z3.Select(dom, x) == z3.Exists([i], z3.And(0 <= i, i < k, x == key_at(C, kt, vt, g, p0, i)))),
+            "last_value_wins": z3.ForAll([i], z3.Implies(
+                z3.And(0 <= i, i < k, z3.ForAll([j], z3.Implies(z3.And(i < j, j < k),
+                                                                key_at(C, kt, vt, g, p0, j) != key_at(C, kt, vt, g, p0, i)))),
+                z3.Select(mp, key_at(C, kt, vt, g, p0, i)) == val_at(C, kt, vt, g, p0, i)))}
+
+
+class MappingDecode(CodecBase):
+    """mapping<K,V>: the uint64 count n, then n times a key (as K) followed by its value (as V), all with the same
+    resolver; the result maps each decoded key to the value of its last occurrence"""
+    target = "serialization.py::MappingCodec.decode"
+    props = PROPS + ("C09",)
+    lemmas_on_raise = True
+    params = {"raw_bytes": "stream", "serialization": "ref:Serialization", "subtypes": "val", "get_by_uuid": "val"}
+    modifies = {"$stream.pos": only("raw_bytes")}
+
+    def axioms(self, eng):
+        return super().axioms(eng) + kvpos_axioms()
+
+    def pre(self, c, a):
+        st_ = to_val(a.subtypes)
+        return dict(read_pre(c, a.raw_bytes.t, 8), **{"two_subtypes": z3.And(Val.is_VPair(st_), Val.is_VPair(snd(st_)),
+                                                                             is_VNone(snd(snd(st_))))})
+
+    def _p(self, c0, a):
+        s = a.raw_bytes.t
+        n = int_read(nxt(c0, s, 0, 8), 8, False)
+        st_ = to_val(a.subtypes)
+        return s, n, content(c0, s), pos(c0, s) + 8, fst(st_), fst(snd(st_)), to_val(a.get_by_uuid)
+
+    def may_raise(self, c0, a):
+        s, n, C, p0, kt, vt, g = self._p(c0, a)
+        i = fresh("i", Int)
+        bad = z3.Exists([i], z3.And(0 <= i, i < n, z3.Not(kv_exc_free(C, kt, vt, g, p0, i))))
+        return {"Exception": bad}
+
+    lemmas = SequenceDecode.lemmas
+
+    def post(self, c0, c1, a, res):
+        s, n, C, p0, kt, vt, g = self._p(c0, a)
+        if res.k != "dict":
+            return {"result_is_a_dict": z3.BoolVal(False)}
+        out = _mapping_view(res.x[0], res.t, C, kt, vt, g, p0, n)
+        out["consumes_count_and_pairs"] = pos(c1, s) == kvpos(C, kt, vt, g, p0, n)
+        return out
+
+
+def _map_dec_inv(L):
+    c0, a, cur = L.c0, L.a, L.c
+    s = a.raw_bytes.t
+    C, p0 = content(c0, s), pos(c0, s) + 8
+    st_ = to_val(a.subtypes)
+    kt, vt, g = fst(st_), fst(snd(st_)), to_val(a.get_by_uuid)
+    d = L.env["mapping"]
+    i = fresh("i", Int)
+    r_ = fresh("r", Int)
+    out = _mapping_view(d.x[0], d.t, C, kt, vt, g, p0, L.k)
+    out.update({"position": pos(cur, s) == kvpos(C, kt, vt, g, p0, L.k),
+                "no_failure_so_far": z3.ForAll([i], z3.Implies(z3.And(0 <= i, i < L.k), kv_exc_free(C, kt, vt, g, p0, i))),
+                "content_unchanged": content(cur, s) == C,
+                "other_streams_untouched": z3.ForAll([r_], z3.Implies(r_ != s, pos(cur, r_) == pos(c0, r_)))})
+    return out
+
+
+_reg6 = register
+
+
+def register(reg):      # noqa: F811
+    _reg6(reg)
+    reg.add(MappingDecode())
+    reg.add_loop("serialization.py::MappingCodec.decode", 0,
+                 LoopSpec(_map_dec_inv, modifies=("$stream.pos",), carried={"mapping": "dict:val"}))
